@@ -46,6 +46,8 @@ fn main() {
 	let ctx = Arc::new(ctx);
 	let case = replay.as_deref().map(findings::read_replay);
 	let result = std::panic::catch_unwind(std::panic::AssertUnwindSafe(|| match (id.as_str(), &case) {
+		("C16", None) => checks::c16::run(ctx.clone()),
+		("C16", Some(c)) => checks::c16::replay(ctx.clone(), c),
 		("C20", None) => checks::c20::run(ctx.clone()),
 		("C20", Some(c)) => checks::c20::replay(ctx.clone(), c),
 		("C01", None) => checks::c01::run(ctx.clone()),
